@@ -365,9 +365,28 @@ def call_contract(st, c, args, kwargs, n=None, closure_env=None):
         g = E.spec_bool(st, rq, env)
         if st.spec:
             continue
-        st.prove('call[%s]@%d/pre#%d' % (c.key, line, i), g, kind='pre', lineno=line)
+        if rq.strip() == 'in_timeout_scope()':
+            st.prove('call[%s]@%d/pre#%d/scope' % (c.key, line, i), g, kind='scope', lineno=line)
+        else:
+            st.prove('call[%s]@%d/pre#%d' % (c.key, line, i), g, kind='pre', lineno=line)
     if c.pure:
-        res = st.fresh_val(c.returns, 'ret_' + c.key.split('.')[-1]) if c.returns.kind != 'none' else E.NONE_VAL()
+        # a pure function is a function: an uninterpreted symbol applied to its arguments and to the
+        # heap locations it declares to read (same arguments, same state => same result)
+        if c.returns.kind == 'none':
+            res = E.NONE_VAL()
+        else:
+            zs = []
+            for p in c.params:
+                v = env[p]
+                if v.t.kind in ('fn', 'typeobj', 'xtuple', 'seq', 'repeat', 'iter'):
+                    continue
+                zs.append(v.z)
+            for rd in getattr(c, 'reads', []) or []:
+                zs.append(E.eval_spec(st, rd, env).z)
+            f = z3.Function('pure!' + c.key, *([z.sort() for z in zs] + [T.sort_of(c.returns)]))
+            res = Val(c.returns, f(*zs))
+            if st.qdepth == 0:
+                st.assume_type(res)
         envr = dict(env)
         envr['result'] = res
         for en in c.ensures:
@@ -404,7 +423,7 @@ def call_contract(st, c, args, kwargs, n=None, closure_env=None):
             st.call_log.append((c.key, [env[p] for p in c.params if p in env], res))
             return res
         cls = outcomes[k]
-        st.call_log.append((c.key, [env[p] for p in c.params if p in env], None))
+        st.call_log.append((c.key, [env[p] for p in c.params if p in env], None, cls))
         ref = st.new_ref(cls if cls in R.CLASSES else 'OtherException')
         envr = dict(env)
         envr['exc'] = Val(T.TRef(cls), ref)
@@ -808,6 +827,9 @@ def bi_abs(st, args, kw):
 
 def bi_int(st, args, kw):
     v = args[0]
+    if v.t.kind == 'union':
+        v = E.concretize(st, v)
+        args = [v] + list(args[1:])
     if v.t.kind == 'int':
         return v
     if v.t.kind == 'bool':
@@ -916,14 +938,14 @@ def bi_allocated(st, args, kw):
 def bi_ncalls(st, args, kw):
     """ncalls('Callee.key'): number of calls to that contract made so far on this path (ghost call log)"""
     key = z3.simplify(args[0].z).as_string()
-    return E.mk_int(len([1 for (k, a, r) in st.call_log if k == key]))
+    return E.mk_int(len([1 for e in st.call_log if e[0] == key]))
 
 
 def bi_call_arg(st, args, kw):
     key = z3.simplify(args[0].z).as_string()
     i = z3.simplify(args[1].z).as_long()
     j = z3.simplify(args[2].z).as_long()
-    hits = [(a, r) for (k, a, r) in st.call_log if k == key]
+    hits = [(e[1], e[2]) for e in st.call_log if e[0] == key]
     if i >= len(hits):
         return E.NONE_VAL()      # guard uses of call_arg with ncalls(...)
     return hits[i][0][j]
@@ -932,10 +954,16 @@ def bi_call_arg(st, args, kw):
 def bi_call_result(st, args, kw):
     key = z3.simplify(args[0].z).as_string()
     i = z3.simplify(args[1].z).as_long()
-    hits = [(a, r) for (k, a, r) in st.call_log if k == key]
+    hits = [(e[1], e[2]) for e in st.call_log if e[0] == key]
     if i >= len(hits) or hits[i][1] is None:
         return E.NONE_VAL()
     return hits[i][1]
+
+
+def bi_nraised(st, args, kw):
+    """nraised('Exc'): number of contract calls on this path that ended by raising Exc (or a subclass)"""
+    cls = z3.simplify(args[0].z).as_string()
+    return E.mk_int(len([1 for e in st.call_log if len(e) > 3 and R.is_subclass(e[3], cls)]))
 
 
 def bi_mkseq(st, args, kw):
@@ -995,7 +1023,7 @@ def bi_dict(st, args, kw):
 
 
 _BUILTINS = {
-    'mkseq': bi_mkseq, 'allocated': bi_allocated, 'ncalls': bi_ncalls, 'call_arg': bi_call_arg,
+    'mkseq': bi_mkseq, 'nraised': bi_nraised, 'allocated': bi_allocated, 'ncalls': bi_ncalls, 'call_arg': bi_call_arg,
     'call_result': bi_call_result, 'trig': bi_trig, 'same': bi_same, 'is_list': bi_is_list, 'store': bi_store, 'dict_has': bi_dict_has,
     'dict_get': bi_dict_get, 'dict_keys': bi_dict_keys, 'dict': bi_dict, 'dict_index': bi_dict_index,
     'len': bi_len, 'set': bi_set, 'list': bi_list, 'tuple': bi_tuple, 'min': bi_min, 'max': bi_max,
@@ -1226,3 +1254,57 @@ def _join(st, recv, args, kw):
     if h is None:
         raise Undecided('join model missing')
     return h(st, [recv] + args)
+
+
+# ------------------------------------------------------------------ more string / bytes methods
+@_strm('decode')
+def _decode(st, recv, args, kw):
+    """bytes.decode(codec): utf-8 / ascii.  Raises UnicodeDecodeError on undecodable input; the decoded
+    text is an uninterpreted function of the bytes (identity on ASCII is not needed by the contracts)."""
+    ok = z3.Function('py_decodable', z3.StringSort(), z3.BoolSort())
+    dec = z3.Function('py_decode', z3.StringSort(), z3.StringSort())
+    if not st.spec:
+        E.check_or_raise(st, ok(recv.z), 'UnicodeDecodeError')
+    return Val(T.STR, dec(recv.z))
+
+
+@_strm('encode')
+def _encode(st, recv, args, kw):
+    ok = z3.Function('py_encodable', z3.StringSort(), z3.BoolSort())
+    enc = z3.Function('py_encode', z3.StringSort(), z3.StringSort())
+    if not st.spec:
+        E.check_or_raise(st, ok(recv.z), 'UnicodeEncodeError')
+    return Val(T.BYTES, enc(recv.z))
+
+
+@_strm('format')
+def _format(st, recv, args, kw):
+    st.nfresh += 1
+    return Val(recv.t, st.fresh(z3.StringSort(), 'fmt'))
+
+
+@_strm('strip')
+def _strip(st, recv, args, kw):
+    f = z3.Function('py_strip', z3.StringSort(), z3.StringSort())
+    return Val(recv.t, f(recv.z))
+
+
+# ------------------------------------------------------------------ gevent.Timeout scopes (G4)
+def _timeout_enter(st, cm):
+    st.ghost['$timeout_depth'] = st.ghost.get('$timeout_depth', 0) + 1
+    return None
+
+
+def _timeout_exit(st, cm, tok, pr):
+    st.ghost['$timeout_depth'] = st.ghost.get('$timeout_depth', 0) - 1
+    return False
+
+
+CONTEXT_MANAGERS['Timeout'] = (_timeout_enter, _timeout_exit)
+
+
+def bi_in_timeout_scope(st, args, kw):
+    return E.mk_bool(z3.BoolVal(st.ghost.get('$timeout_depth', 0) > 0))
+
+
+_BUILTINS['in_timeout_scope'] = bi_in_timeout_scope
